@@ -251,6 +251,8 @@ class JoinedText(ModelObj):
 def text_len(t):
     if isinstance(t, (str, bytes)):
         return len(t)
+    if isinstance(t, EmptyText):
+        return 0
     return t.length
 
 
@@ -317,6 +319,11 @@ def _pieces_total(tl):
     return s.psum(s.length)
 
 
+def _all_text(tl):
+    s = tl.seq if isinstance(tl, LRef) else tl
+    return forall(0, Q.seq_len(s), lambda j: tag(Q.seq_get(s, j)) == TEXT)
+
+
 def _recurse_inv(v):
     m, i, inh = v.tm, v.i_, v.attr
     cur().ghost["markup_raise_index"] = i  # (read by on_raise: the child whose decomposition raised)
@@ -325,6 +332,7 @@ def _recurse_inv(v):
         link(v.ral, n_runs(v.ral) - 1)  # definitional axiom of the expansion view of the (arbitrary) list: its last run
     yield "nothing-before-the-first-child", implies(i == 0, both(n_runs(v.ral) == 0, Q.seq_len(v.rtl) == 0))
     yield "children-so-far-are-valid", VP(m, i)
+    yield "pieces-are-text-leaves", _all_text(v.rtl)
     yield "runs-cover-the-text-so-far", total(v.ral) == PS(m, i)
     yield "pieces-cover-the-text-so-far", _pieces_total(v.rtl) == PS(m, i)
     yield "no-zero-length-run", all_runs_at_least(v.ral, 1)
@@ -346,10 +354,12 @@ class tagmarkup_recurse:
         L = TL(m)
         rp_mono(al, 0, n_runs(al), 1)
         if cur().ghost.get("c17_callee_use"):
-            link(al, 0)  # definitional axiom of the expansion view of the (fresh) result list: its first run
+            link(al, 0)  # definitional axioms of the expansion view of the (fresh) result list: its first run ...
+            link(al, n_runs(al) - 1)  # ... and its last run
         yield "only-a-valid-markup-returns", valid(m)
         yield "one-attribute-per-character", total(al) == L
         yield "pieces-add-up-to-the-text-length", _pieces_total(tl) == L
+        yield "pieces-are-text-leaves", _all_text(tl)
         yield "each-character-has-the-attribute-of-its-innermost-tag", forall(0, L, lambda p: aeq(at(al, p), ATT(m, a.attr, p)))
         yield "no-zero-length-run", all_runs_at_least(al, 1)
         yield "an-empty-text-contributes-a-piece-but-no-run", implies(both(tag(m) == TEXT, tlen(m) == 0), both(n_runs(al) == 0, Q.seq_len(tl) == 1))
@@ -376,6 +386,30 @@ class tagmarkup_recurse:
         yield "only-an-invalid-markup-raises", neg(valid(a.tm))
 
     loops = {0: Loop(invariant=_recurse_inv, shapes={"rtl": PIECES, "ral": ListOf(Tup(ATTR, S._Int(0)))})}
+
+
+@contract(UT + "decompose_tagmarkup", property=("C17", "C02"), replayable=False, branch_timeout_ms=300, cover_timeout_ms=15000)
+class decompose_tagmarkup:
+    """(text, attribute runs) of a markup.  The attribute list may be SHORTER than the text: a trailing run of
+    untagged (None) characters is dropped; a consumer reads positions past the list as None (rle_get_at)."""
+
+    params = dict(tm=MARKUP)
+    raises = (_util.TagMarkupException,)
+
+    def ensures(a, result):
+        text, al = result
+        m = a.tm
+        L = TL(m)
+        rp_mono(al, 0, n_runs(al), 1)
+        yield "only-a-valid-markup-returns", valid(m)
+        yield "one-text-character-per-markup-character", text_len(text) == L
+        yield "attributes-never-extend-past-the-text", both(0 <= total(al), total(al) <= L)
+        yield "each-character-has-the-attribute-of-its-innermost-tag", forall(0, total(al), lambda p: aeq(at(al, p), ATT(m, None, p)))
+        yield "characters-past-the-attribute-list-are-untagged", forall(total(al), L, lambda p: opt_isnone(ATT(m, None, p)))
+        yield "no-zero-length-run", all_runs_at_least(al, 1)
+
+    def on_raise(a, exc):
+        yield "only-an-invalid-markup-raises", neg(valid(a.tm))
 
 
 @lemma("markup-valid-prefix-monotone", property=("C17", "C02"))
